@@ -532,6 +532,21 @@ func (p *Program) lvalue(e *node) []*Val {
 		if b.T.scalar() && len(e.s) == 1 && swizzleIndex(e.s[0]) == 0 {
 			return []*Val{b}
 		}
+		if b.T.scalar() && len(e.s) >= 2 && len(e.s) <= 4 { // HLSL scalar splat: (1u).xxxx
+			all0 := true
+			for i := 0; i < len(e.s); i++ {
+				if swizzleIndex(e.s[i]) != 0 {
+					all0 = false
+				}
+			}
+			if all0 {
+				cells := make([]*Val, len(e.s))
+				for i := range cells {
+					cells[i] = b
+				}
+				return cells
+			}
+		}
 		p.rtFail("member access ." + e.s + " on a value that has no members")
 		return []*Val{zero(tInt)}
 	case "index":
